@@ -111,6 +111,7 @@ func runE1Case(r *verifkit.Run, pf e1Profile, id string, rng *rand.Rand) map[str
 	n.dstMode = int(uint64(nVals+profile)+w.initH) % 3
 	g := newGen(n, rng)
 	g.attackWeight = pf.attackWeight
+	g.allowAbandon = pf.prop == "C09"
 	mo := newMonitors(n)
 	g.mo = mo
 
